@@ -33,7 +33,9 @@ def new_run():
                "row violating a row-level constraint in any same-label column survives); polars float "
                "data holding NaN and nulls under a non-nullable Column declaring no dtype / the data's "
                "dtype / float (schema column, regex column, stand-alone Column.validate; NaN counts as "
-               "null); the surviving identities are compared with the reference model's rows "
+               "null); Column(drop_invalid_rows=True) INSIDE a DataFrameSchema with or without the "
+               "schema-level option (pandas and polars; judged only when an object is returned: no "
+               "invalid row in it, no valid row missing); the surviving identities are compared with the reference model's rows "
                "satisfying every row-level constraint; non-trivial = at least one row must be dropped "
                "or a non-row error must be raised; distinct = canonical hash",
                ["reference model pvm/model.py; index labels unique and non-null (documented limit)",
@@ -477,6 +479,112 @@ def polars_nan_case(run, rng):
         run.violation("surviving-rows-differ", dict(desc, expected=exp, got=got), None)
 
 
+MECH_COLUMN_LEVEL = "column-level-drop_invalid_rows-inside-DataFrameSchema-violations-vanish"
+
+
+def column_level_case(run, rng):
+    """``Column(..., drop_invalid_rows=True)`` INSIDE a DataFrameSchema (pandas and
+    polars), the schema itself with or without ``drop_invalid_rows``.  Whatever the
+    container does with the column-level request, an object it RETURNS must not
+    hold a row that violates a row-level constraint of any column, and must hold
+    every row that violates none.  (A container that raises SchemaErrors instead
+    is not judged here: the documentation shows the column-level option on a
+    stand-alone ``Column.validate`` only.)"""
+    backend = "polars" if rng.random() < 0.4 else "pandas"
+    n = rng.choice([4, 5, 6, 7])
+    ncols = rng.randint(2, 3)
+    schema_drop = rng.random() < 0.5
+    names = ["c%d" % j for j in range(ncols)]
+    specs = {}
+    for c in names:
+        dt = rng.choice(["int64", "float64"])
+        chk = G.gen_check(rng, dt, neutral=True) if rng.random() < 0.8 else None
+        pool = [x for x in G.POOL[dt] if x is not None and x == x]
+        good = [x for x in pool if chk is None or M.check_cell(chk, x)]
+        bad = [x for x in pool if chk is not None and not M.check_cell(chk, x)]
+        if not good:
+            chk, good, bad = None, pool, []
+        specs[c] = {"dtype": dt, "check": chk, "nullable": not (dt == "float64" and rng.random() < 0.6),
+                    "col_drop": False, "good": good, "bad": bad}
+    for c in rng.sample(names, rng.randint(1, ncols)):
+        specs[c]["col_drop"] = True
+    where = rng.choice(["dropping_columns_only", "dropping_columns_only", "any_column"])
+    cols = {}
+    for c in names:
+        sp = specs[c]
+        vals = [rng.choice(sp["good"]) for _ in range(n)]
+        if sp["col_drop"] or where == "any_column":
+            for _ in range(rng.randint(0, 2)):
+                i = rng.randrange(n)
+                if sp["bad"] and rng.random() < 0.75:
+                    vals[i] = rng.choice(sp["bad"])
+                elif not sp["nullable"]:
+                    vals[i] = None
+        cols[c] = vals
+    keys = ["r%d" % i for i in range(n)]
+
+    def cell_bad(c, x):
+        sp = specs[c]
+        if x is None:
+            return not sp["nullable"]
+        return sp["check"] is not None and not M.check_cell(sp["check"], x)
+    bad_cols = [[c for c in names if cell_bad(c, cols[c][i])] for i in range(n)]
+    valid = [keys[i] for i in range(n) if not bad_cols[i]]
+    desc = {"backend": backend, "column_level_drop": True, "schema_drop": schema_drop, "where": where,
+            "columns": {c: {k: v for k, v in specs[c].items() if k not in ("good", "bad")} for c in names},
+            "data": cols}
+    run.case(canon_hash(["column-level-drop", desc]), len(valid) < n, sample=None)
+    if backend == "pandas":
+        import pandera as pa
+        df = pd.DataFrame({**{c: pd.Series(cols[c], dtype=specs[c]["dtype"]) for c in names}, "k": keys})
+        dts = {"int64": "int64", "float64": "float64"}
+    else:
+        import polars as pl
+        import pandera.polars as pa
+        dts = {"int64": pl.Int64, "float64": pl.Float64}
+        df = pl.DataFrame({**{c: pl.Series(c, cols[c], dtype=dts[specs[c]["dtype"]]) for c in names},
+                           "k": pl.Series("k", keys)})
+    schema = pa.DataFrameSchema(
+        {c: pa.Column(dts[sp["dtype"]], nullable=sp["nullable"], drop_invalid_rows=sp["col_drop"],
+                      checks=[getattr(pa.Check, sp["check"]["kind"])(**sp["check"]["args"])] if sp["check"] else None)
+         for c, sp in specs.items()}, drop_invalid_rows=schema_drop)
+    out = H.run_validate(schema, df, lazy=True)
+    tag = f"column_level:{backend}:schema_drop_{schema_drop}"
+    run.count(f"{tag}:{out.kind}")
+    if out.kind == "exc":
+        run.violation("internal-exception-instead-of-drop-or-SchemaErrors",
+                      dict(desc, exc=repr(out.exc)[:300]), None)
+        return
+    if out.kind != "ok":
+        if schema_drop and all(set(b) for b in bad_cols if b):
+            # schema-level drop_invalid_rows covers every row-level error
+            run.violation("row-level-violations-raised-instead-of-dropped",
+                          dict(desc, impl=out.kind, reasons=out.reasons()), None)
+        else:
+            run.count("undecided:column_level_drop:container_raised")
+        return
+    run.count("column_level:rows_compared")
+    run.count(f"{tag}:rows_compared")
+    if len(valid) < n:
+        run.count(f"column_level:rows_compared:with_invalid_rows:{backend}")
+    try:
+        got = out.result["k"].to_list() if backend == "polars" else out.result["k"].tolist()
+    except Exception as e:
+        run.violation("result-has-unknown-row-labels", dict(desc, exc=repr(e)[:200]), None)
+        return
+    survivors = [keys.index(k) for k in got if k in keys]
+    inval = [i for i in survivors if bad_cols[i]]
+    if inval:
+        # the open mechanism: every surviving invalid row is invalid only through
+        # columns that asked for drop_invalid_rows themselves
+        mech = MECH_COLUMN_LEVEL if all(all(specs[c]["col_drop"] for c in bad_cols[i]) for i in inval) else None
+        run.violation("invalid-row-survives", dict(desc, expected=valid, got=got,
+                                                   invalid_survivors=[keys[i] for i in inval]), mech)
+        return
+    if got != valid:
+        run.violation("surviving-rows-differ", dict(desc, expected=valid, got=got), None)
+
+
 REGEX_LABELS = {"r_.*": ["r_a", "r_bb", "r_c"], "r\\d": ["r1", "r2", "r3"], "r_a|r_b": ["r_a", "r_b"]}
 
 
@@ -666,6 +774,8 @@ def run(run, ctx):
         rng = ctx.rng(PID, i)
         if i % 16 == 7:
             polars_nan_case(run, rng)
+        elif i % 16 == 11:
+            column_level_case(run, rng)
         elif i % 8 == 5:
             column_case(run, rng)
         elif i % 3 == 2:
@@ -696,5 +806,8 @@ def finalize(run, ctx):
                     ("non_row_error_expected_raise:whole_column_check:frame:column", 18),
                     ("non_row_error_expected_raise:whole_column_check:frame:frame", 9),
                     ("non_row_error_expected_raise:whole_column_check:series:column", 4),
+                    ("column_level:rows_compared", 50),
+                    ("column_level:rows_compared:with_invalid_rows:pandas", 20),
+                    ("column_level:rows_compared:with_invalid_rows:polars", 15),
                     ("config_monitor:validate_calls_bracketed", 700)]:
         run.floors[name] = m
